@@ -1466,4 +1466,178 @@ theorem strict_form_accepted (t : Tool) (pa ps a : Action) (act arc : Str) (srcs
   rw [hk]
   simp [hmode]
 
+/-- **a help option in front wins**: whatever follows (provided no later string is an ambiguous abbreviation, which stops the parser
+    before anything else), the run ends with the help text -/
+theorem help_first (t : Tool) (h : Str) (a : Action) (rest : List Str) (hne : h ≠ dashdash) (hc : classify t h = .opt a h none)
+    (hn : a.nargs = 0) (hg : a.inGroup = false) (hd : a.dest = helpDest) (hamb : tokenize t rest ≠ none) :
+    cliParse t (h :: rest) = .help := by
+  cases ht : tokenize t rest with
+  | none => exact absurd ht hamb
+  | some toks =>
+    have hk : parseKnown t (h :: rest) = .help := by
+      unfold parseKnown
+      simp only [tokenize]
+      rw [if_neg (by simpa using hne), hc, ht]
+      simp only [Option.map_some, List.length_cons]
+      rw [loop_step]
+      have hval : valueOf a [] = some (if a.const.isEmpty then .bool true else .str a.const) := by simp [valueOf, hn]
+      have hcf : conflicts (initSt t).group a = false := by simp [conflicts, hg]
+      simp only [loopBody, List.any_cons, isO_opt, Bool.true_or, Bool.not_true, Bool.false_eq_true, if_false, nonO, List.takeWhile_cons,
+        List.length_nil, Nat.lt_irrefl, optStep, consumeOpt, noExplicit, hn, beq_self_eq_true, if_true, List.nil_append, takeAll, takeAction,
+        hval, hcf, hd, Stop.out]
+    unfold cliParse
+    rw [hk]
+
+/-! ### no option string is ambiguous for parsers without abbreviations whose option strings are `-x` or `--word` -/
+
+theorem filterMap_le_one {α β : Type} (key : α → Str) (k0 : Str) (f : α → Option β) : ∀ (l : List α), (l.map key).Nodup →
+    (∀ x ∈ l, (f x).isSome = true → key x = k0) → (l.filterMap f).length ≤ 1
+  | [], _, _ => by simp
+  | x :: xs, hnd, hf => by
+    simp only [List.map_cons, List.nodup_cons] at hnd
+    cases hx : f x with
+    | none =>
+      simp only [List.filterMap_cons, hx]
+      exact filterMap_le_one key k0 f xs hnd.2 (fun y hy => hf y (by simp [hy]))
+    | some b =>
+      have hk : key x = k0 := hf x (by simp) (by simp [hx])
+      have hrest : xs.filterMap f = [] := by
+        apply List.filterMap_eq_nil_iff.mpr
+        intro y hy
+        cases hy' : f y with
+        | none => rfl
+        | some c =>
+          exfalso
+          have := hf y (by simp [hy]) (by simp [hy'])
+          exact hnd.1 (by rw [hk, ← this]; exact List.mem_map.mpr ⟨y, hy, rfl⟩)
+      simp [List.filterMap_cons, hx, hrest]
+
+theorem startsWith_prefix : ∀ (pat l : List Nat), startsWith pat l = true → l.take pat.length = pat
+  | [], _, _ => by simp
+  | p :: ps, [], h => by simp [startsWith] at h
+  | p :: ps, x :: xs, h => by
+    simp only [startsWith, Bool.and_eq_true, beq_iff_eq] at h
+    simp only [List.length_cons, List.take_succ_cons, h.1, startsWith_prefix ps xs h.2]
+
+/-- the option strings of the parser: pairwise distinct, each `-x` (two characters) or beginning with `--` -/
+def PlainOptions (t : Tool) : Prop :=
+  t.allowAbbrev = false ∧ ((optionMap t).map (·.1)).Nodup ∧
+    ∀ p ∈ optionMap t, (p.1.length = 2 ∧ p.1.head? = some dash) ∨ (p.1.take 2 = dashdash)
+
+instance (t : Tool) : Decidable (PlainOptions t) := by unfold PlainOptions; infer_instance
+
+theorem optionTuples_le_one (t : Tool) (hp : PlainOptions t) (s : Str) (hnf : findOpt t s = none) (hlen : 2 ≤ s.length) :
+    (optionTuples t s).length ≤ 1 := by
+  obtain ⟨hab, hnd, hshape⟩ := hp
+  unfold optionTuples
+  split
+  · simp [hab]
+  · rename_i h1
+    have hs1 : s.getD 1 0 ≠ dash := by simpa using h1
+    apply filterMap_le_one (fun p : Str × Action => p.1) (s.take 2) _ (optionMap t) hnd
+    intro p hp hsome
+    by_cases hA : (p.1 == s.take 2) = true
+    · simpa using hA
+    · exfalso
+      simp only [hA, Bool.false_eq_true, if_false] at hsome
+      by_cases hB : startsWith s p.1 = true
+      · have hpre := startsWith_prefix s p.1 hB
+        rcases hshape p hp with ⟨hl2, _⟩ | hdd
+        · -- a two-character option of which `s` (two characters at least) is a prefix: it is `s`, which the table does not hold
+          have hs2 : s.length = 2 := by
+            have := congrArg List.length hpre
+            simp only [List.length_take] at this
+            omega
+          have heq : p.1 = s := by
+            rw [← hpre, hs2, ← hl2, List.take_length]
+          have : findOpt t s = some p.2 := by
+            unfold findOpt
+            have hfind : ∃ q, (optionMap t).find? (fun q => q.1 == s) = some q ∧ q.1 = s := by
+              cases hq : (optionMap t).find? (fun q => q.1 == s) with
+              | none =>
+                exfalso
+                have := List.find?_eq_none.mp hq p hp
+                simp [heq] at this
+              | some q => exact ⟨q, rfl, by simpa using List.find?_some hq⟩
+            obtain ⟨q, hq1, hq2⟩ := hfind
+            rw [hq1]
+            simp only [Option.map_some, Option.some.injEq]
+            -- distinct option strings: q is p
+            have hqm := List.mem_of_find?_eq_some hq1
+            have : q = p := by
+              have hinj : ∀ (l : List (Str × Action)), (l.map (·.1)).Nodup → ∀ a ∈ l, ∀ b ∈ l, a.1 = b.1 → a = b := by
+                intro l
+                induction l with
+                | nil => intro _ a ha; simp at ha
+                | cons x xs ih =>
+                  intro hnd' a ha b hb hab'
+                  simp only [List.map_cons, List.nodup_cons] at hnd'
+                  simp only [List.mem_cons] at ha hb
+                  rcases ha with rfl | ha <;> rcases hb with rfl | hb
+                  · rfl
+                  · exact absurd (List.mem_map.mpr ⟨b, hb, hab'.symm⟩) hnd'.1
+                  · exact absurd (List.mem_map.mpr ⟨a, ha, hab'⟩) hnd'.1
+                  · exact ih hnd'.2 a ha b hb hab'
+              exact hinj _ hnd q hqm p hp (by rw [hq2, heq])
+            rw [this]
+          rw [this] at hnf
+          cases hnf
+        · -- an option beginning with `--` of which `s` is a prefix: the second character of `s` is '-'
+          have : s.getD 1 0 = dash := by
+            have h2 : (p.1.take s.length).take 2 = s.take 2 := by rw [hpre]
+            rw [List.take_take, Nat.min_eq_left hlen, hdd] at h2
+            match s, hlen with
+            | a :: b :: r, _ =>
+              simp only [List.take_succ_cons, List.take_zero, dashdash, List.cons.injEq, and_true] at h2
+              simp [h2.2, dash]
+          exact hs1 this
+      · simp [hB] at hsome
+
+/-- **no argument string is ambiguous** for such a parser: `tokenize` always succeeds -/
+theorem classify_not_ambiguous (t : Tool) (hp : PlainOptions t) (s : Str) : classify t s ≠ .ambiguous := by
+  unfold classify
+  split
+  · simp
+  · split
+    · simp
+    · cases hf : findOpt t s with
+      | some a => simp
+      | none =>
+        simp only
+        split
+        · simp
+        · rename_i hl1 _ hl
+          split
+          · simp
+          · have hlen : 2 ≤ s.length := by
+              have h0 : s.length ≠ 0 := by
+                intro h0; have := List.length_eq_zero_iff.mp h0; subst this; simp at *
+              have h1 : s.length ≠ 1 := by simpa using hl
+              omega
+            have hle := optionTuples_le_one t hp s hf hlen
+            split
+            · simp
+            · rename_i h2
+              rw [h2] at hle
+              simp at hle
+            · split
+              · simp
+              · split <;> simp
+
+theorem tokenize_isSome (t : Tool) (hp : PlainOptions t) : ∀ argv, tokenize t argv ≠ none
+  | [] => by simp [tokenize]
+  | s :: rest => by
+    have ih := tokenize_isSome t hp rest
+    simp only [tokenize]
+    split
+    · simp
+    · cases hr : tokenize t rest with
+      | none => exact absurd hr ih
+      | some r =>
+        cases hc : classify t s with
+        | ambiguous => exact absurd hc (classify_not_ambiguous t hp s)
+        | pos => simp
+        | unknown => simp
+        | opt a o e => simp
+
 end Moto.Argparse
